@@ -187,13 +187,23 @@ template<size_t BC, size_t CF> static std::string tvCase(const std::string& cmd,
 		pool.blockSize = (BC == 1 ? 8 : 16); pool.blockAlignment = 8;
 		return out;
 	}
-	if (cmd == "nb1" || cmd == "nbuf")
+	if (cmd == "nb1" || cmd == "nbuf" || cmd == "al1")
 	{
 		ull begin; is >> begin;
 		typename P::Params prm{size_t(B), size_t(A)}; P pool(prm);
 		if (pool.GetBlockSize() != B) return "params-corrected";
 		gA.exact = true; gA.exactAddr = uintptr_t(begin);
-		if (cmd == "nb1")
+		if (cmd == "al1")
+		{	// the public Allocate / Deallocate of a single-block pool on a chosen manager address: which path is taken
+			void* blk = pool.Allocate();
+			uintptr_t ub = reinterpret_cast<uintptr_t>(blk);
+			ull reqSize = gA.lastAllocSize; bool inside = gA.owns(ub, size_t(B));
+			pool.Deallocate(blk);
+			if (pool.pvUseCache()) pool.pvFlushDeallocate();
+			snprintf(out, sizeof out, "%llu %llu %d %d", ull(ub - begin), reqSize, int(inside),
+				int(gA.lastDealloc == begin && gA.lastDeallocSize == reqSize && gA.live.empty()));
+		}
+		else if (cmd == "nb1")
 		{
 			Byte* block = pool.pvNewBlock1();
 			uintptr_t ub = reinterpret_cast<uintptr_t>(block);
@@ -334,9 +344,12 @@ template<size_t BC, size_t CF> static std::string histCase(std::istringstream& i
 		typename P::Params params{size_t(bs), size_t(al)};
 		const size_t B = params.GetBlockSize(), A = params.GetBlockAlignment();
 		{
-			ull g = std::min<ull>(16, A & (~A + 1));
+			// the manager contract: addresses are multiples of maxAllocAlignment = 16 (endmode bit 2: only the weaker
+			// min(16, lowbit(A)) granularity that pvGetAlignmentAddend relies on)
+			ull g = (endmode & 4) ? std::min<ull>(16, A & (~A + 1)) : 16;
 			gA.gran = g;
-			gA.period = (BC > 1) ? 2ull * B * BC : 2ull * A;
+			ull p0 = (BC > 1) ? 2ull * B * BC : 2ull * A;
+			gA.period = p0 / std::__gcd<ull>(p0, 16) * 16;
 			std::istringstream rs(resStr); std::string tok;
 			while (std::getline(rs, tok, ',')) gA.residues.push_back(std::stoull(tok) % gA.period / g * g);
 		}
@@ -541,11 +554,11 @@ int main()
 			if (cmd == "ceil") { ull v, m; is >> v >> m; out = std::to_string(ull(internal::UIntMath<size_t>::Ceil(size_t(v), size_t(m)))); }
 			else if (cmd == "cbs") { ull bs, al, bc; is >> bs >> al >> bc; out = std::to_string(ull(MemPoolConst::CorrectBlockSize(size_t(bs), size_t(al), size_t(bc)))); }
 			else if (cmd == "chk") { ull bc, al; is >> bc >> al; out = std::to_string(int(MemPoolConst::CheckBlockCount(size_t(bc)))) + " " + std::to_string(int(MemPoolConst::CheckBlockAlignment(size_t(al)))); }
-			else if (cmd == "ar" || cmd == "gb" || cmd == "gi" || cmd == "pos" || cmd == "nb1" || cmd == "nbuf")
+			else if (cmd == "ar" || cmd == "gb" || cmd == "gi" || cmd == "pos" || cmd == "nb1" || cmd == "nbuf" || cmd == "al1")
 			{
 				ull bc, cf; is >> bc >> cf;
 				if (!(bc == 1 || bc == 2 || bc == 3 || bc == 31 || bc == 32 || bc == 127) || !(cf == 0 || cf == 1 || cf == 16)) out = "?";
-				else if (cmd == "nb1" || cmd == "nbuf") out = forked([&] { return DISPATCH(tvCase, bc, cf, cmd, is); });
+				else if (cmd == "nb1" || cmd == "nbuf" || cmd == "al1") out = forked([&] { return DISPATCH(tvCase, bc, cf, cmd, is); });
 				else out = DISPATCH(tvCase, bc, cf, cmd, is);
 			}
 			else if (cmd == "fabmg" || cmd == "fabmv" || cmd == "fabdel") out = forked([&] { return fabCase(cmd, is); });
